@@ -60,16 +60,17 @@ func (*c15Prop) Components() map[string]interface{} {
 func (*c15Prop) Plans(tier string) []Plan {
 	if tier == "quick" {
 		return []Plan{
-			{Name: "history", Variant: 0, Workers: 8, Runs: 6000, MaxTime: 25e9, Size: 24},
-			{Name: "tasks-plain", Variant: 1, Workers: 4, Runs: 3000, MaxTime: 25e9, Size: 10},
-			{Name: "tasks-race", Variant: 1, Race: true, Workers: 4, Runs: 2000, MaxTime: 25e9, Size: 10},
+			{Name: "history", Variant: 0, Workers: 16, Runs: 40000, MaxTime: 30e9, Size: 24},
+			{Name: "tasks-plain", Variant: 1, Workers: 8, Runs: 15000, MaxTime: 30e9, Size: 10},
+			{Name: "tasks-race", Variant: 1, Race: true, Workers: 8, Runs: 8000, MaxTime: 30e9, Size: 10},
 		}
 	}
 	return []Plan{
-		{Name: "history", Variant: 0, Workers: 16, Runs: 150000, MaxTime: 300e9, Size: 40},
-		{Name: "tasks-plain", Variant: 1, Workers: 16, Runs: 60000, MaxTime: 240e9, Size: 14},
-		{Name: "tasks-race", Variant: 1, Race: true, Workers: 16, Runs: 40000, MaxTime: 300e9, Size: 14},
-		{Name: "tasks-race-cold", Variant: 1, Race: true, Workers: 48, Runs: 1, MaxTime: 60e9, Size: 14, Cold: true},
+		{Name: "history", Variant: 0, Workers: 16, Runs: 4000000, MaxTime: 420e9, Size: 40},
+		{Name: "history-short", Variant: 0, Workers: 16, Runs: 4000000, MaxTime: 180e9, Size: 8},
+		{Name: "tasks-plain", Variant: 1, Workers: 16, Runs: 4000000, MaxTime: 300e9, Size: 14},
+		{Name: "tasks-race", Variant: 1, Race: true, Workers: 16, Runs: 4000000, MaxTime: 420e9, Size: 14},
+		{Name: "tasks-race-cold", Variant: 1, Race: true, Workers: 64, Runs: 1, MaxTime: 60e9, Size: 14, Cold: true},
 	}
 }
 
